@@ -184,3 +184,45 @@ func (g *gen) generateSlotSubsets() []*Input {
 	}
 	return ins
 }
+
+// Undefined members at issuance: under the default options (safe mode on) ToCoreClaim must
+// refuse the credential; under an explicit WithSafeMode(false) at issuance and verification it is
+// accepted and the undefined member makes no statement (not bound by design: exactness decides).
+func (g *gen) generateUndefined(schs []*schemaInfo) []*Input {
+	var ins []*Input
+	for _, sch := range schs {
+		sp := g.credSpecs(sch)[0]
+		doc := cloneDoc(buildDoc(sp))
+		cs := doc["credentialSubject"].(map[string]any)
+		cs["isAdmin"] = true
+		doc["credentialStatus"].(map[string]any)["bypass"] = "yes"
+		b, _ := json.Marshal(doc)
+		for _, h := range []int{0, unsafeMode} {
+			o := credgen.Opts{RevNonce: 41, Version: 1}
+			c := g.base(sch, sp, o, "complete")
+			c.Cred, c.Hasher = b, h
+			c.Site = "undefined-member:safe-mode-on"
+			if h == unsafeMode {
+				c.Site = "undefined-member:safe-mode-off"
+			}
+			ins = append(ins, c)
+			for si, ed := range []func(d map[string]any){
+				func(d map[string]any) { d["credentialSubject"].(map[string]any)["isAdmin"] = false },
+				func(d map[string]any) { delete(d["credentialSubject"].(map[string]any), "isAdmin") },
+				func(d map[string]any) { d["credentialStatus"].(map[string]any)["bypass"] = "no" },
+				func(d map[string]any) { d["issuer"] = otherDID },
+			} {
+				m := cloneDoc(doc)
+				ed(m)
+				mb, _ := json.Marshal(m)
+				in := g.base(sch, sp, o, "doc")
+				in.Cred, in.Hasher, in.ModCred = b, h, mb
+				in.Site = []string{"change:undefined:credentialSubject.isAdmin", "remove:undefined:credentialSubject.isAdmin", "change:undefined:credentialStatus.bypass", "change:issuer"}[si]
+				// with safe mode off the undefined members make no statement; the issuer does (merklized schemas)
+				in.Bound = si == 3 && sch.Merklized
+				ins = append(ins, in)
+			}
+		}
+	}
+	return ins
+}
